@@ -295,6 +295,12 @@ def misc(wd, rng, page_size=512, rows=300, tag="misc"):
     c.execute("CREATE INDEX wc_x ON Wc(x DESC)")
     c.execute("CREATE TABLE tp(k TEXT PRIMARY KEY, v)")
     c.execute("CREATE TABLE tn(k TEXT COLLATE NOCASE PRIMARY KEY, v) WITHOUT ROWID")
+    # identifiers that differ only in the case of a non-ASCII letter are different identifiers
+    c.execute("CREATE TABLE uc(É, é, ÜBER, über, b)")
+    c.execute("CREATE TABLE ucw(É, é, v, PRIMARY KEY(é, É)) WITHOUT ROWID")
+    for n in range(20):
+        c.execute("INSERT INTO uc VALUES(?,?,?,?,?)", ("upper%d" % n, "lower%d" % n, n, -n, n % 3))
+        c.execute("INSERT INTO ucw VALUES(?,?,?)", ("U%d" % (n % 5), "l%d" % n, n))
     c.execute("BEGIN")
     for n in range(rows):
         c.execute("INSERT INTO Mc VALUES(?,?,?,?,?)", (n * 5 - 300, rng.choice(WORDS) + str(n % 9), rng.choice([float(n % 17), n / 4.0, None, 2.0 ** 53]),
@@ -313,6 +319,8 @@ def misc(wd, rng, page_size=512, rows=300, tag="misc"):
     db.tables["Wc"] = dict(kind="norowid", cols=["Name", "Val", "x", "late2"], pk=[("Val", "", False), ("Name", "", False)])
     db.tables["tp"] = dict(kind="rowid", cols=["k", "v"], pkindex="sqlite_autoindex_tp_1")
     db.tables["tn"] = dict(kind="norowid", cols=["k", "v"], pk=[("k", "nocase", False)])
+    db.tables["uc"] = dict(kind="rowid", cols=["É", "é", "ÜBER", "über", "b"])
+    db.tables["ucw"] = dict(kind="norowid", cols=["É", "é", "v"], pk=[("é", "", False), ("É", "", False)])
     db.indexes["mc_part"] = dict(table="Mc", cols=[("val", "", False)], where="n > 3")
     db.indexes["mc_expr"] = dict(table="Mc", cols=[("n + 1", "", False), ("Name", "nocase", False)])
     db.indexes["mc_u"] = dict(table="Mc", cols=[("Name", "nocase", False), ("Id", "", False)])
